@@ -36,7 +36,7 @@ pub fn cli_case() -> impl Strategy<Value = CliCase> {
         any::<bool>(),
         any::<bool>(),
         prop_oneof![8 => Just(0u8), 6 => Just(1u8), 2 => Just(2u8), 2 => Just(3u8), 2 => Just(4u8), 3 => Just(5u8)],
-        prop_oneof![8 => Just(0u8), 6 => Just(1u8), 2 => Just(2u8), 2 => Just(3u8), 2 => Just(4u8), 3 => Just(5u8)],
+        prop_oneof![8 => Just(0u8), 6 => Just(1u8), 2 => Just(2u8), 2 => Just(3u8), 2 => Just(4u8), 3 => Just(5u8), 2 => Just(6u8)],
         any::<bool>(),
         any::<bool>(),
         0u8..16,
@@ -112,6 +112,8 @@ pub struct Planned {
     pub eep_unwritable: bool,
     pub files: Vec<(PathBuf, Vec<u8>)>,
     pub dirs: Vec<PathBuf>,
+    /// the -e path is a second name (hard link) of the file at the -o / default flash path
+    pub hardlink: bool,
 }
 
 pub fn plan(c: &CliCase, root: &Path) -> Planned {
@@ -164,8 +166,16 @@ pub fn plan(c: &CliCase, root: &Path) -> Planned {
         3 => (root.join("isdir.eep.hex"), true),
         4 => (PathBuf::from("/dev/full"), true),
         5 => (root.join("out").join("same file.hex"), false),
+        // e = 6: another name (hard link) of the flash output file, which exists before the run
+        6 if !hex_unwritable => (root.join("out").join("second name.hex"), false),
+        6 => (root.join("out").join("ee.eep"), false),
         _ => (default_eep.clone(), false),
     };
+    let hardlink = c.e == 6 && !hex_unwritable;
+    if hardlink {
+        files.push((out_hex.clone(), SENTINEL.to_vec()));
+        dirs.push(root.join("out"));
+    }
     // pre-existing outputs with sentinel content
     if c.pre & 1 != 0 {
         files.push((default_hex.clone(), SENTINEL.to_vec()));
@@ -194,7 +204,7 @@ pub fn plan(c: &CliCase, root: &Path) -> Planned {
     if c.v {
         args.push(if c.long { "--verbosity".into() } else { "-v".into() });
     }
-    Planned { args, src_abs, symlinks, out_hex, out_eep, hex_unwritable, eep_unwritable, files, dirs }
+    Planned { args, src_abs, symlinks, out_hex, out_eep, hex_unwritable, eep_unwritable, files, dirs, hardlink }
 }
 
 pub fn cli_path() -> Result<PathBuf, String> {
@@ -221,6 +231,9 @@ pub fn run_case(c: &CliCase, root: &Path, cli: &Path) -> Result<Result<(&'static
     }
     for (link, target) in &p.symlinks {
         std::os::unix::fs::symlink(target, link).map_err(|e| e.to_string())?;
+    }
+    if p.hardlink {
+        std::fs::hard_link(&p.out_hex, &p.out_eep).map_err(|e| format!("hard link: {}", e))?;
     }
     // the library's verdict for the same file and include set
     let std_inc = root.join("cfg").join("avra-rs").join("includes");
@@ -255,7 +268,7 @@ pub fn run_case(c: &CliCase, root: &Path, cli: &Path) -> Result<Result<(&'static
                 let need_hex = !b.code.is_empty();
                 let need_eep = !b.eeprom.is_empty();
                 // one path for both images: they cannot both be there, so this counts as "cannot be written"
-                let clash = need_hex && need_eep && p.out_hex == p.out_eep;
+                let clash = need_hex && need_eep && (p.out_hex == p.out_eep || p.hardlink);
                 let unwritable = (need_hex && p.hex_unwritable) || (need_eep && p.eep_unwritable) || clash;
                 if unwritable {
                     if code == Some(0) {
@@ -294,10 +307,11 @@ pub fn run_case(c: &CliCase, root: &Path, cli: &Path) -> Result<Result<(&'static
                         }
                     }
                 };
-                if p.out_hex != p.out_eep || need_hex {
+                let one_file = p.out_hex == p.out_eep || p.hardlink;
+                if !one_file || need_hex {
                     check(&p.out_hex, &b.code, "flash")?;
                 }
-                if p.out_hex != p.out_eep || need_eep {
+                if !one_file || need_eep {
                     check(&p.out_eep, &b.eeprom, "eeprom")?;
                 }
                 // nothing else may change: only the two output paths may differ from the snapshot
